@@ -36,6 +36,9 @@ type Engine struct {
 	tagList []types.Type
 
 	embKinds map[string]int
+	implTagCache map[string][]int
+	fnValues     map[*ssa.Function]bool
+	pendingCalls func(*ssa.Function)
 
 	repoDir string
 }
@@ -76,7 +79,11 @@ func loadEngine(repo string) (*Engine, error) {
 		repoDir:     repo,
 	}
 	for f := range ssautil.AllFunctions(prog) {
-		if f.Pkg == e.pkg && f.Blocks != nil && f.Synthetic == "" {
+		inPkg := f.Pkg == e.pkg && f.Synthetic == ""
+		if o := f.Origin(); o != nil && o.Pkg == e.pkg && f.Blocks != nil {
+			inPkg = true // instantiation of a generic function of the package
+		}
+		if inPkg && f.Blocks != nil {
 			e.funcs[e.fname(f)] = f
 			e.order = append(e.order, f)
 		}
@@ -87,6 +94,7 @@ func loadEngine(repo string) (*Engine, error) {
 		return nil, err
 	}
 	e.cs = cs
+	e.addAvailabilityContract()
 	for name, c := range cs.Funcs {
 		if _, ok := e.funcs[name]; !ok && !strings.HasPrefix(name, "iface:") && !strings.HasPrefix(name, "lib:") {
 			// contract for a function that does not exist (anymore)
@@ -145,4 +153,39 @@ func (e *Engine) ghostMonotone(g string) bool {
 		}
 	}
 	return true
+}
+
+// implTags: tags of the package types implementing an interface declared in the package.
+func (e *Engine) implTags(t types.Type) []int {
+	key := e.typeName(t)
+	if v, ok := e.implTagCache[key]; ok {
+		return v
+	}
+	iface, ok := t.Underlying().(*types.Interface)
+	if !ok {
+		return nil
+	}
+	var out []int
+	var names []string
+	for n := range e.pkg.Members {
+		names = append(names, n)
+	}
+	sort.Strings(names)
+	for _, n := range names {
+		tn, ok := e.pkg.Members[n].(*ssa.Type)
+		if !ok || types.IsInterface(tn.Type()) {
+			continue
+		}
+		if types.Implements(tn.Type(), iface) {
+			out = append(out, e.tagOf(tn.Type()))
+		}
+		if pt := types.NewPointer(tn.Type()); types.Implements(pt, iface) {
+			out = append(out, e.tagOf(pt))
+		}
+	}
+	if e.implTagCache == nil {
+		e.implTagCache = map[string][]int{}
+	}
+	e.implTagCache[key] = out
+	return out
 }
